@@ -480,6 +480,10 @@ func (dr *dirRepo) blobDelete(d digest.Digest, locked bool) error {
 	}
 	dr.log.Debug("blob deleted", "repo", dr.name, "digest", d.String())
 	err = os.Remove(filename)
+	if err != nil && os.IsNotExist(err) {
+		// another request deleted the blob after it was checked
+		return fmt.Errorf("failed to remove %s: %w", d.String(), types.ErrNotFound)
+	}
 	return err
 }
 
